@@ -302,7 +302,7 @@ class Rewriter:
     # R6 -------------------------------------------------------------------------------
     def macros(self, b):
         out, i = '', 0
-        pat = re.compile(r'\b(debug_assert_eq|debug_assert_ne|debug_assert|assert_eq|assert)!\s*\(')
+        pat = re.compile(r'\b(debug_assert_eq|debug_assert_ne|debug_assert|assert_eq|assert|matches)!\s*\(')
         while True:
             mm = mask(b)
             m = pat.search(mm, i)
@@ -314,6 +314,12 @@ class Rewriter:
             c = match_close(mm, o)
             args = split_args(b[o + 1:c])
             kind = m.group(1)
+            if kind == 'matches':
+                # matches!(e, pat if guard) is by definition `match e { pat if guard => true, _ => false }`
+                out += '(match %s { %s => true, _ => false })' % (args[0], ', '.join(args[1:]))
+                self.fired('R6:matches')
+                i = c + 1
+                continue
             fn = 'rt_debug_assert' if kind.startswith('debug') else 'rt_assert'
             if kind.endswith('_eq'):
                 out += '%s((%s) == (%s))' % (fn, args[0], args[1])
@@ -480,6 +486,44 @@ class Rewriter:
             b = b[:rs] + '(' + rep + ')' + b[c + 1:]
             self.fired('R13:' + name)
 
+    # R15 ------------------------------------------------------------------------------------
+    def desugar_pipeline(self, b):
+        """`let X = iter::from_fn(|| GEN); ... X.filter_map(|p| F).next()`  ==  first F(item) that is Some, over the items GEN
+        yields until it returns None (definition of from_fn / filter_map / next in core::iter) -> an explicit loop"""
+        mm = mask(b)
+        m = re.search(r'let (\w+) = iter::from_fn\s*\(', mm)
+        if not m:
+            return b
+        x = m.group(1)
+        o = m.end() - 1
+        c = match_close(mm, o)
+        gen = b[o + 1:c].strip()
+        g = re.match(r'^(?:move\s+)?\|\s*\|\s*(\{.*\})$', gen, re.S)
+        if not g:
+            raise ExtractError('R15: generator closure not of the form || { .. }')
+        semi = mm.index(';', c)
+        b = b[:m.start()] + b[semi + 1:]
+        mm = mask(b)
+        f = re.search(r'\b%s\.filter_map\s*\(' % x, mm)
+        if not f:
+            raise ExtractError('R15: %s.filter_map(..) not found' % x)
+        o = f.end() - 1
+        c = match_close(mm, o)
+        flt = b[o + 1:c].strip()
+        fm = re.match(r'^(?:move\s+)?\|\s*(\w+)\s*\|\s*(\{.*\})$', flt, re.S)
+        if not fm:
+            raise ExtractError('R15: filter closure not of the form |p| { .. }')
+        nx = re.match(r'\s*\.next\(\)', mm[c + 1:])
+        if not nx:
+            raise ExtractError('R15: .next() expected after filter_map(..)')
+        rep = ('{\n            let mut found__ = None;\n            loop {\n                let item__ = %s;\n                match item__ {\n'
+               '                    None => { break; }\n                    Some(%s) => {\n                        let r__ = %s;\n'
+               '                        match r__ { Some(v__) => { found__ = Some(v__); break; } None => {} }\n                    }\n                }\n            }\n'
+               '            found__\n        }') % (g.group(1), fm.group(1), fm.group(2))
+        b = b[:f.start()] + rep + b[c + 1 + nx.end():]
+        self.fired('R15:iterator-pipeline')
+        return b
+
     # the whole pipeline ----------------------------------------------------------------------
     def rewrite(self, body):
         b = strip_comments(body, mask(body))
@@ -501,6 +545,7 @@ class Rewriter:
             b = self.sub('R4:self-deref', r'\bself\.(\w+)\.get\(\)', r'footer_read(w, self_addr).\1', b)
             b = self.sub('R4:self-deref', r'\bself\.(\w+)\b(?!\()', r'footer_read(w, self_addr).\1', b)
             b = self.sub('R4:self-addr', r'\(self == ', '(self_addr == ', b)
+        b = self.desugar_pipeline(b)                                         # R15
         b = self.sub('R7:empty-chunk', r'\bEMPTY_CHUNK\.get\(\)', 'empty_chunk_get()', b)
         b = self.aliases(b)                                                  # R4
         b = self.footer_derefs(b)                                            # R4/R3
